@@ -283,7 +283,7 @@ def _judge_same_type_quotient(fl, allow, mode, unit_operand):
                 ou = other if unit_operand else other.unit
                 if st.same_unit(s.unit.uid, ou.uid) is True:
                     return (exc_sig(o), "identical units cannot fail to convert")
-                return None
+                return None if converters_tried(o) else NOT_TRIED
             return (exc_sig(o), "contract: plain number val(self)/val(other)")
         v = o.value
         if not isinstance(v, Num):
